@@ -12,6 +12,8 @@ import (
 	"testing"
 	"testing/synctest"
 	"time"
+	"verif/raceload"
+	"verif/racepass"
 
 	utls "github.com/refraction-networking/utls"
 	"verif/bubble"
@@ -353,4 +355,24 @@ func TestCheck(t *testing.T) {
 			rep.Violate(map[string]any{"kind": f.Sig, "variant": v.name}, map[string]any{"variant": v.name, "choices": f.Choices, "schedule": f.Trace}, "%s", f.What)
 		}
 	}
+}
+
+// ---- free-running race-detector pass (the cooperative explorer cannot see memory-model races) ---------------------------
+
+func TestRace(t *testing.T) {
+	rep := ev.New("C17", "model_checking")
+	defer rep.Write()
+	racepass.Parent(t, rep, "TestRaceWorkload", []string{"pkg/proxyserver", "pkg/metadata", "pkg/hack", "pkg/fingerprint", "pkg/reverseproxy", "fingerproxy."},
+		"unsynchronised concurrent access in the proxy's own code while connections of every kind run at once and the server shuts down")
+}
+
+func TestRaceWorkload(t *testing.T) {
+	if !racepass.IsChild() {
+		t.Skip("only run as a child of TestRace")
+	}
+	rounds := 40
+	if ev.Thorough() {
+		rounds = 200
+	}
+	raceload.Mixed(t, rounds)
 }
